@@ -295,7 +295,6 @@ def handle : List String → String
 
 /-- counter-example lines replayed on the implementation on every run (see Witness.lean) -/
 def witnessLines : List String := [
-  "C12 hist P,2f636f6e6669672f,{61707073.{633132.{61.[[#1##2#]]}}},-,-;G,2f636f6e6669672f617070732f6331322f612f302f31,-,-,-;A,2f636f6e6669672f617070732f6331322f612f302f31,#7#,-,-;G,2f636f6e6669672f617070732f6331322f612f30,-,-,-",
   "C12 hist P,2f636f6e6669672f,{61707073.{633132.{61.{62.#7#}612f62.{406964.s73.76.#1#}}}},-,-;G,2f69642f73,-,-,-"
 ]
 
